@@ -1,4 +1,4 @@
-CONSTANTS Heights <- MCHeightsS  Addrs = {1, 2, 3}  Classes <- MCClassesS  MaxPerBlock = 4  MaxTx = 24
+CONSTANTS Heights <- MCHeightsS  Addrs = {1, 2, 3}  Classes <- MCClassesS  MaxPerBlock = 3  MaxTx = 24
           PageSizes = {1, 2, 3, 5, 30}  RecordHist = TRUE  SimDepth = 30
 INIT Init
 NEXT Next
